@@ -519,6 +519,9 @@ def run(ctx: Ctx) -> None:
     ctx.rule('R20.4', 'responses carry the library data of the requested (deformed) instance in index order, independent of earlier requests', floor=23)
     ctx.trust('gui-config.json is read as data; Flask routing and main.js are not analysed')
     gmi, tables = _gui_tables(ctx)
-    _r201_202(ctx, tables['codes'])
-    _r203(ctx, gmi, tables)
-    _r204(ctx, gmi, tables)
+    with ctx.part():
+        _r201_202(ctx, tables['codes'])
+    with ctx.part():
+        _r203(ctx, gmi, tables)
+    with ctx.part():
+        _r204(ctx, gmi, tables)
